@@ -4,7 +4,7 @@
 From Coq Require Import String.
 From Coq Require Import List NArith ZArith Bool Arith Lia Permutation.
 From Coq Require Import Init.Byte.
-From FFS Require Import Base.Res Base.Bytes Gen.AbiConsts AbiType.Syntax AbiType.Model Ffi.Model Ffi.Spec Ffi.Proofs.
+From FFS Require Import Base.Res Base.Bytes Gen.AbiConsts AbiType.Syntax AbiType.Model Ffi.Model Ffi.Spec Ffi.Proofs Ffi.ProofsClass.
 Import ListNotations.
 
 (* ---------- Spec.consistent, unfolded ---------- *)
@@ -25,6 +25,7 @@ Fixpoint elem_ok (it : schema) : bool :=
 Lemma consistent_unfold t o det props items :
   consistent (Schema t o det props items) =
   match det with None => false | Some _ => true end
+  && negb (type_at_odds (Schema t o det props items))
   && (if bytes_eqb t (str "object") then members_ok props
       else if bytes_eqb t (str "array") then match items with None => false | Some it0 => elem_ok it0 end
       else true).
@@ -145,13 +146,13 @@ Proof.
   split.
   - intros name p H. rewrite processSchema_unfold in H. rewrite consistent_unfold.
     destruct d as [d|]; [|discriminate]. cbn [andb].
-    unfold components_of in H. rewrite str_object, str_array.
+    destruct (components_of t props items) as [comps| |] eqn:EC; cbn [bind] in H; try discriminate.
+    rewrite (finish_not_at_odds _ _ _ _ _ _ _ H eq_refl). cbn [negb andb].
+    unfold components_of in EC. rewrite str_object, str_array.
     destruct (bytes_eqb t jsonObjectType).
-    + destruct (buildABIParameterArrayForObject PF props) as [ps| |] eqn:E; cbn in H; try discriminate.
-      eapply PF_build_members; eauto.
+    + eapply PF_build_members; eauto.
     + destruct (bytes_eqb t jsonArrayType); [|reflexivity].
       destruct items as [it0|]; [|discriminate].
-      destruct (down it0) as [ps| |] eqn:E; cbn in H; try discriminate.
       cbn in HI. destruct HI as [_ HD]. eapply HD; eauto.
   - intros ps H. rewrite down_unfold in H. cbn [elem_ok]. rewrite str_array.
     destruct (bytes_eqb t jsonArrayType).
@@ -164,7 +165,9 @@ Proof. apply accepted_consistent_aux. Qed.
 
 (* every structurally inconsistent schema (and a nil schema) is an error of the conversion,
    whatever the verdict of the jsonschema compile *)
-Theorem inconsistent_structure_rejected :
+(* every inconsistent schema (and a nil schema) is an error of the conversion, whatever the verdict
+   of the jsonschema compile *)
+Theorem inconsistent_any_verdict_rejected :
   forall name verdict os,
     match os with None => True | Some s => consistent s = false end ->
     exists e, convertFFIParam (mkPin name verdict (Some os)) = Err e.
@@ -177,4 +180,15 @@ Proof.
   destruct os as [s|]; cbn [processField] in E; [|discriminate].
   destruct (processSchema name s) as [q| |] eqn:Q; cbn [bind] in E; try discriminate.
   rewrite (accepted_consistent _ _ _ Q) in H. discriminate.
+Qed.
+
+(* the oracle of the correspondence run (Run.v, code 13) as a theorem *)
+Theorem inconsistent_rejected :
+  forall p, pin_inconsistent p = true -> exists e, convertFFIParam p = Err e.
+Proof.
+  intros [name verdict unm]. unfold pin_inconsistent. cbn [pi_verdict pi_unm].
+  intros H. apply andb_prop in H as [-> H].
+  destruct unm as [[s|]|]; try discriminate.
+  - apply inconsistent_any_verdict_rejected. apply negb_true_iff in H. exact H.
+  - apply inconsistent_any_verdict_rejected. exact I.
 Qed.
